@@ -3,7 +3,10 @@ Room.tla builds room DAGs (honest servers, forks of any shape); StateRes.tla tra
 stage; every fork pair of every reachable room is a resolution query replayed through ResolveConflictsNew and
 ResolveStateConflictsV2New.  In the other direction a seeded driver grows larger rooms (up to ~28 events, pairs and
 triples of state sets, all three algorithms) with real events / auth / resolution and StateRes_trace.tla
-recomputes every logged result."""
+recomputes every logged result.
+Power levels of the room model vary the `users` map and `users_default` (creation prefixes 4 / 5 set it to 50 / 100,
+the free kind "pld" changes it; the recorder sets and changes it too): the sender power of the power ordering (R2)
+and the auth rules read the effective level - an entry, or users_default for a user without one."""
 from vlib import room
 
 
@@ -11,7 +14,7 @@ def run(ctx):
     ctx.repro_attempts = 6   # order- and schedule-dependent misbehaviour is retried in fresh processes
     ctx.exhaustive = True
     ctx.notes["rule"] = ("every fork pair of every room reachable in Room.tla within the plans of vlib/room.py "
-                         "(creation prefix x version x MaxFree free events); distinct = (version, kinds of the "
+                         "(creation prefix incl. users_default absent / 50 / 100 x version x MaxFree free events); distinct = (version, kinds of the "
                          "events that differ between the state sets, resolved state)")
     ctx.notes["plans"] = [list(p) for p in room.plans(ctx.tier)]
     room.generate(ctx, on_batch=lambda recs: ctx.replay_and_compare("c10", recs))
